@@ -16,7 +16,7 @@ import common
 BUILD = os.path.join(common.ROOT, "build")
 MODEL_SRC = os.path.join(common.ROOT, "harness", "model")
 BACKENDS = ("atlas", "cms_aod", "cms_miniaod")
-CXXFLAGS = ["-std=c++17", "-O0", "-w"]
+CXXFLAGS = ["-std=c++17", "-O0", "-w", "-ftrivial-auto-var-init=pattern"]
 
 CMS_FW_HEADERS = [
     "FWCore/Framework/interface/Frameworkfwd.h",
